@@ -6,11 +6,18 @@ use ntp_proto::{
     ClockId, NtpClock, NtpSource, NtpSourceActionIterator, NtpTimestamp, ObservableSourceState,
     SourceController,
 };
+#[cfg(not(pendulum_project_ntpd_rs_verif))]
 #[cfg(target_os = "linux")]
 use timestamped_socket::socket::open_interface_udp;
+#[cfg(not(pendulum_project_ntpd_rs_verif))]
 use timestamped_socket::{
     interface::InterfaceName,
     socket::{Connected, RecvResult, Socket, connect_address},
+};
+#[cfg(pendulum_project_ntpd_rs_verif)]
+use {
+    super::verif::source::{Connected, RecvResult, Socket, connect_address, open_interface_udp},
+    timestamped_socket::interface::InterfaceName,
 };
 use tracing::{Instrument, Span, debug, error, instrument, warn};
 
